@@ -239,7 +239,12 @@ impl Collector {
     /// `order` makes the retained example independent of thread scheduling: the example with
     /// the smallest order key is kept.
     pub fn push(&self, order: u64, v: Violation) {
-        self.total.fetch_add(1, Ordering::Relaxed);
+        let n = self.total.fetch_add(1, Ordering::Relaxed);
+        if n + 1 >= VIOLATION_CAP {
+            // a run that has already found this many violating cases is decided; finishing the
+            // enumeration would only take time (formatting millions of reports)
+            ABORT.store(true, Ordering::Relaxed);
+        }
         let mut m = self.map.lock().unwrap();
         let k = (v.sub.to_string(), v.class.clone());
         match m.get_mut(&k) {
@@ -381,6 +386,11 @@ pub struct RunStats {
 }
 
 static ABORT: AtomicBool = AtomicBool::new(false);
+/// after this many violating cases the sweeps stop early (the evidence then says `exhaustive: false`)
+pub const VIOLATION_CAP: u64 = 200_000;
+pub fn stopped_early() -> bool {
+    ABORT.load(Ordering::Relaxed)
+}
 
 /// Wall-clock cap for a whole check (DESIGN §11); hitting it is an engine failure (exit 3).
 pub static DEADLINE: Mutex<Option<Instant>> = Mutex::new(None);
